@@ -19,6 +19,8 @@ const EXT: &[(&str, &str)] = &[
     ("g", "function(x) if x > 0 then error 'positive' else x"),
     ("base", "{a: 1, h:: 2, z: [self.a]}"),
     ("mixin", "{b: 2} + {assert self.b > 0}"),
+    // a value computed while an object's assertions are being checked (and then fail)
+    ("prov", "local O = { assert helper > 0 && self.y > 0 : 'bad', x: 1, y: -1 }, helper = O.x; { O: O, helper: helper }"),
 ];
 
 const THUNKS: &[&str] = &[
@@ -80,6 +82,10 @@ const SOURCES: &[&str] = &[
     "std.extVar('mixin') + std.extVar('base') + {b: -1}",
     "[std.extVar('mixin'), std.objectFields(std.extVar('mixin') + {})]",
     "std.extVar('base') { a+: 1 } + ({} + {}) + {z+: [2]}",
+    "std.extVar('prov').O.x",
+    "std.extVar('prov').helper",
+    "local o = { a: std.objectRemoveKey(self, 'late_' + 'gone').a }; o.a",
+    "local late_gone = 1; late_gone",
     // names that exist only as computed strings until another request spells them out
     // (the string interner is shared by all requests of a program state)
     "{a: super['late_' + 'name']}.a",
@@ -88,6 +94,9 @@ const SOURCES: &[&str] = &[
     "[std.objectHas(std.extVar('o'), 'late_' + 'name'), ('late_' + 'key') in std.extVar('o'), std.objectFields(std.objectRemoveKey(std.extVar('o2'), 'late_' + 'key'))]",
     "{a: ('late_' + 'name') in super, b: '%(late_key)s' % {c: 1}}",
 ];
+
+/// sources before this index form the core alphabet (see `run`)
+const CORE_SOURCES: usize = 24;
 
 pub fn alphabet() -> Vec<Req> {
     let mut v: Vec<Req> = (0..SOURCES.len()).map(Req::Ev).collect();
@@ -269,7 +278,9 @@ fn sweep(len: usize, alpha: &[Req], base: &[String], sh: &util::Shard) -> Report
                     "different-outcome"
                 };
                 rep.violation(
-                    format!("C11/history-dependent/{kind}"),
+                    // the signature names the request whose answer changed, so that a listed
+                    // finding covers that request only
+                    format!("C11/history-dependent/{kind}/{}", match reqs[pos] { Req::Ev(i) => util::truncate(SOURCES[i], 60), other => format!("{other:?}") }),
                     format!("after {:?} the request {:?} answers {} but on a fresh state {}", &reqs[..pos], reqs[pos], util::truncate(&out, 200), util::truncate(want, 200)),
                     json!({"type":"history","requests": reqs.iter().map(|r| format!("{r:?}")).collect::<Vec<_>>(), "position": pos}),
                 );
@@ -398,8 +409,14 @@ pub fn run(ctx: &Ctx) -> i32 {
     let mut total = Report::new();
     let cfg = util::ForkCfg { threads: ctx.threads, mem_bytes: 4 << 30, case_timeout_s: 60, died_signature: "C11/abort".into(), resource_is_violation: false };
     let maxlen = if ctx.quick() { 3 } else { 4 };
+    // the longest histories run over the core alphabet (everything but the sources added for
+    // shared caches and interned names, which are covered up to one length less)
+    let core: Vec<Req> = alpha.iter().copied().filter(|r| !matches!(r, Req::Ev(i) if *i >= CORE_SOURCES)).collect();
+    let core_base: Vec<String> = alpha.iter().zip(base.iter()).filter(|(r, _)| !matches!(r, Req::Ev(i) if *i >= CORE_SOURCES)).map(|(_, b)| b.clone()).collect();
+    total.extra.insert("core_alphabet_size".into(), json!(core.len()));
     for len in 1..=maxlen {
-        let r = util::par_forked(&cfg, if len >= 3 { 256 } else { 16 }, |sh| sweep(len, &alpha, &base, sh));
+        let (a, b) = if len == maxlen { (&core, &core_base) } else { (&alpha, &base) };
+        let r = util::par_forked(&cfg, if len >= 3 { 256 } else { 16 }, |sh| sweep(len, a, b, sh));
         total.extra.insert(format!("histories_len{len}"), json!(r.evaluations));
         total.merge(r);
     }
@@ -411,7 +428,7 @@ pub fn run(ctx: &Ctx) -> i32 {
         ctx,
         LevelInfo {
             level: "model_checking",
-            rule: "all request histories up to the length bound over the request alphabet (loads+evaluations of 16 sources sharing ext-var values, re-evaluation of 6 persistent thunks, 4 eval_call forms with shared argument thunks, gc, a small-frame-limit request, manifestations of stored values) on one Program; every request's outcome compared with the same request on a fresh state. distinct+nontrivial = distinct success/failure patterns of the history".into(),
+            rule: "all request histories up to the length bound over the request alphabet - the longest length over the 39-request core alphabet, shorter ones over all 52 - (loads+evaluations of 37 sources sharing ext-var values, re-evaluation of 6 persistent thunks, 4 eval_call forms with shared argument thunks, gc, a small-frame-limit request, manifestations of stored values) on one Program; every request's outcome compared with the same request on a fresh state. distinct+nontrivial = distinct success/failure patterns of the history".into(),
             assumptions: vec!["outcomes are compared as value JSON / error kind + message (span ids legitimately differ between histories)".into()],
         },
         total,
